@@ -320,17 +320,8 @@ func ExpandFirst(p *core.Prog, r *core.Report) {
 					return
 				}
 			}
-			// (2) schema of a response expanded successfully
-			if strings.Contains(opDesc(arg, 0), "expandResponseRef(") {
-				for _, cd := range core.CondsAt(c.Block()) {
-					if call, isC := cd.Value.(*ssa.Call); isC && cd.Sense {
-						if h := core.StaticCallee(call); h != nil && core.FuncName(h) == "(*Result).IsValid" {
-							r.OK(rule, key, p.Pos(c.Pos()), "schema of a response that spec.ExpandResponse expanded without error")
-							return
-						}
-					}
-				}
-			}
+			// (the schema of a response that spec.ExpandResponse expanded without error used to be accepted here: it is
+			// not enough — a schema carrying an `id` is expanded again by the validator, against another base)
 			// (3) a dominating successful ExpandSchema on the same object
 			okExp := false
 			core.EachInstr(f, func(j ssa.Instruction) {
@@ -358,6 +349,11 @@ func ExpandFirst(p *core.Prog, r *core.Report) {
 				}
 				probed := gc.Call.Args[len(gc.Call.Args)-1]
 				same := probed == arg
+				if pa, okA := core.Path(probed); okA {
+					if pb, okB := core.Path(arg); okB && pa == pb && !strings.Contains(pa, "?") {
+						same = true // two loads of the same field of the same object
+					}
+				}
 				if al, isAl := arg.(*ssa.Alloc); isAl {
 					for _, ref := range core.Refs(al) {
 						if st, isSt := ref.(*ssa.Store); isSt && st.Addr == ssa.Value(al) {
@@ -368,7 +364,7 @@ func ExpandFirst(p *core.Prog, r *core.Report) {
 					}
 				}
 				if same {
-					r.OK(rule, key, p.Pos(c.Pos()), "guarded by "+core.FuncName(h)+": either every reference of the document resolves, or a clone of this very schema was expanded without error")
+					r.OK(rule, key, p.Pos(c.Pos()), "guarded by "+core.FuncName(h)+": a clone of this very schema was expanded, the way the validator will, without error")
 					return
 				}
 			}
@@ -412,18 +408,9 @@ func resolvabilityPredicate(h *ssa.Function) bool {
 		switch v := ret.Results[0].(type) {
 		case *ssa.Const:
 			if v.Value != nil && v.Value.ExactString() == "true" {
-				okGuard := false
-				for _, cd := range core.CondsAt(b) {
-					if bo, ok := cd.Value.(*ssa.BinOp); ok && core.IsNilConst(bo.Y) {
-						nonNil := (bo.Op == token.NEQ && cd.Sense) || (bo.Op == token.EQL && !cd.Sense)
-						if pth, ok := core.StablePath(bo.X); ok && nonNil && strings.HasSuffix(pth, ".expanded") {
-							okGuard = true
-						}
-					}
-				}
-				if !okGuard {
-					return false
-				}
+				// "the document expanded as a whole" does not imply that this schema expands on its own against the
+				// specification (references into other files, `id` re-basing): the predicate must probe
+				return false
 			}
 		case *ssa.BinOp:
 			if !(v.Op == token.EQL && v.X == ssa.Value(expand) && core.IsNilConst(v.Y)) {
